@@ -269,6 +269,112 @@ fn x11b_update_step_serial_and_contiguity() {
     std::mem::forget(slot);
 }
 
+
+//------------ C10: delta verification and application ------------------------
+//
+// URIs and contents come from `crate::verif_fix` (laid-out fixtures, no
+// parser); the content hash is the collision-free model `stub_to_hash`.
+// Publisher "a" owns rsync://h/m/a/, publisher "b" owns rsync://h/m/b/.
+
+use crate::verif_fix::{base64_of, hash_of, hash_other, rsync_hm, stub_to_hash};
+
+pub(crate) fn jail_a() -> uri::Rsync { rsync_hm("rsync://h/m/a/") }
+pub(crate) fn uri_pick(i: u8) -> uri::Rsync {
+    match i {
+        0 => rsync_hm("rsync://h/m/a/x"),
+        1 => rsync_hm("rsync://h/m/a/y"),
+        _ => rsync_hm("rsync://h/m/b/x"),
+    }
+}
+
+/// The laid-out fixtures are well-formed values of the real types: the real
+/// accessors return what the parser would have produced.
+// vk: timeout=600; unwindset=memcmp.0:20; bound=concrete fixture values
+#[kani::proof]
+#[kani::unwind(20)]
+fn c10z_fixtures_are_wellformed() {
+    let jail = jail_a();
+    let x = uri_pick(0);
+    let o = uri_pick(2);
+    assert!(jail.as_str() == "rsync://h/m/a/");
+    assert!(x.as_str() == "rsync://h/m/a/x");
+    assert!(jail.module_name() == "m" && jail.path() == "a/");
+    assert!(x.path() == "a/x" && o.path() == "b/x");
+    assert!(jail.is_parent_of(&x));
+    assert!(!jail.is_parent_of(&o));
+    assert!(!jail.is_parent_of(&jail));
+    assert!(base64_of(3).as_str() == "D");
+    kani::cover!(jail.is_parent_of(&x));
+    std::mem::forget((jail, x, o));
+}
+
+
+/// Current objects of publisher "a": each of x, y present or not, with
+/// arbitrary (fixture) content.
+fn any_current() -> (CurrentObjects, [Option<u8>; 2]) {
+    let mut objs = CurrentObjects::default();
+    let mut have = [None, None];
+    let mut i = 0u8;
+    while i < 2 {
+        if kani::any() {
+            let c: u8 = kani::any();
+            kani::assume(c < 16);
+            objs.0.insert(CurrentObjectUri::from(&uri_pick(i)), base64_of(c));
+            have[i as usize] = Some(c);
+        }
+        i += 1;
+    }
+    (objs, have)
+}
+
+fn any_hash() -> (Hash, Option<u8>) {
+    if kani::any() {
+        let c: u8 = kani::any();
+        kani::assume(c < 16);
+        (hash_of(c), Some(c))
+    } else {
+        (hash_other(), None)
+    }
+}
+
+/// One-element delta against 0..2 current objects: accepted exactly when the
+/// URI lies inside the publisher's jail AND (publish: the URI is new;
+/// update/withdraw: the URI currently holds content with the stated hash).
+// vk: timeout=900; unwindset=memcmp.0:20; bound=0..2 current objects (x, y) with 16 possible contents, one delta element of any kind for x, y or a URI of another publisher, stated hash = hash of any content or a foreign hash; Base64::to_hash modelled collision-free
+#[kani::proof]
+#[kani::unwind(5)]
+#[kani::stub(rpki::ca::publication::Base64::to_hash, stub_to_hash)]
+fn c10a_verify_one_element() {
+    let (objs, have) = any_current();
+    let kind: u8 = kani::any();
+    let which: u8 = kani::any();
+    kani::assume(kind < 3 && which < 3);
+    let uri = uri_pick(which);
+    let inside = which < 2;
+    let (hash, hc) = any_hash();
+    let content: u8 = kani::any();
+    kani::assume(content < 16);
+    let delta = match kind {
+        0 => DeltaElements::new(vec![PublishElement { uri, base64: base64_of(content) }], vec![], vec![]),
+        1 => DeltaElements::new(vec![], vec![UpdateElement { uri, hash, base64: base64_of(content) }], vec![]),
+        _ => DeltaElements::new(vec![], vec![], vec![WithdrawElement { uri, hash }]),
+    };
+    let res = objs.verify_delta_applies(&delta, &jail_a());
+    let present = if inside { have[which as usize] } else { None };
+    let expect_ok = inside && match kind {
+        0 => present.is_none(),
+        _ => present.is_some() && hc == present,
+    };
+    assert!(res.is_ok() == expect_ok);
+    kani::cover!(res.is_ok() && kind == 0);
+    kani::cover!(res.is_ok() && kind == 1);
+    kani::cover!(res.is_ok() && kind == 2);
+    kani::cover!(res.is_err() && !inside);
+    kani::cover!(res.is_err() && inside && kind == 0);
+    kani::cover!(res.is_err() && inside && kind == 2 && present.is_some());
+    std::mem::forget((res, objs, delta));
+}
+
 #[cfg(test)]
 #[path = "/verif/.cache/playback/server_pubd_rrdp.rs"]
 mod playback;
